@@ -752,11 +752,273 @@ const EVERY_T: usize = 30_000;
 const ADJ_PRIME_BOUND: usize = 1_000;
 const CASE_MAX: usize = 80_000_000;
 
+// ------------------------------------------------------------------------------------------------
+// giant limits: far beyond the scale at which a full smallest-factor reference is affordable per run, so the table is
+// checked completely only where a bit set suffices (is_prime for every n, the whole prime list, "min_prime(n) is a
+// prime that divides n" for every n) and factorize / min_prime are checked against trial division on the numbers
+// where structure concentrates: the nine-distinct-primes numbers, every prime power, smooth numbers, semiprimes
+// of two large primes, both ends of the table, neighbourhoods of powers of two, and a random sample.
+
+fn td_factor(mut n: u64) -> Vec<(u32, u32)> {
+    let mut out = Vec::new();
+    let mut d = 2u64;
+    while d * d <= n {
+        if n % d == 0 {
+            let mut e = 0;
+            while n % d == 0 {
+                n /= d;
+                e += 1;
+            }
+            out.push((d as u32, e));
+        }
+        d += if d == 2 { 1 } else { 2 };
+    }
+    if n > 1 {
+        out.push((n as u32, 1));
+    }
+    out
+}
+
+fn giant_numbers(limit: usize, seed: u64) -> Vec<usize> {
+    let l = limit as u64;
+    let mut v: Vec<u64> = Vec::new();
+    for n in 2..3002u64.min(l + 1) {
+        v.push(n);
+    }
+    for n in l.saturating_sub(3000).max(2)..=l {
+        v.push(n);
+    }
+    let small: Vec<u64> = (2..1000u64).filter(|&x| td_is_prime(x as u32)).collect();
+    // every prime power of the primes below 1000 (and both neighbours)
+    for &p in &small {
+        let mut x = p;
+        while x <= l {
+            for y in [x - 1, x, x + 1] {
+                if y >= 2 && y <= l {
+                    v.push(y);
+                }
+            }
+            x *= p;
+        }
+    }
+    // square-free products of the first 13 primes (2 * 3 * ... * 23 = 223092870 is the smallest number with nine distinct
+    // prime factors), each also times 2, 3, 4 where that fits
+    for mask in 1u32..(1 << 13) {
+        let mut x = 1u64;
+        for (b, &p) in small.iter().take(13).enumerate() {
+            if mask >> b & 1 == 1 {
+                x = x.saturating_mul(p);
+                if x > l {
+                    break;
+                }
+            }
+        }
+        for k in 1..=4u64 {
+            if x.saturating_mul(k) <= l {
+                v.push(x * k);
+            }
+        }
+    }
+    // 2-3-5-7-smooth numbers
+    let mut a = 1u64;
+    while a <= l {
+        let mut b = a;
+        while b <= l {
+            let mut c = b;
+            while c <= l {
+                let mut d = c;
+                while d <= l {
+                    if d >= 2 {
+                        v.push(d);
+                    }
+                    d *= 7;
+                }
+                c *= 5;
+            }
+            b *= 3;
+        }
+        a *= 2;
+    }
+    // semiprimes and squares of primes around sqrt(limit)
+    let r = isqrt(limit) as u64;
+    let near: Vec<u64> = (r.saturating_sub(600)..=r + 5).filter(|&x| x >= 2 && td_is_prime(x as u32)).collect();
+    for (i, &p) in near.iter().enumerate() {
+        for &q in near.iter().skip(i).take(40) {
+            if p * q <= l {
+                v.push(p * q);
+            }
+        }
+    }
+    // neighbourhoods of powers of two
+    for e in 8..=30u32 {
+        let c = 1u64 << e;
+        for y in c.saturating_sub(40)..=c + 40 {
+            if y >= 2 && y <= l {
+                v.push(y);
+            }
+        }
+    }
+    let mut rng = Rng::new(mix(&[seed, 0x61A7, l]));
+    for _ in 0..40_000 {
+        v.push(2 + rng.below(l - 1));
+    }
+    v.sort_unstable();
+    v.dedup();
+    v.into_iter().map(|x| x as usize).collect()
+}
+
+fn check_giant(limit: usize, seed: u64, findings: &Findings, rep: &mut Report) {
+    rep.inc("evaluations");
+    rep.inc("limits_giant");
+    rep.max("max_limit", limit as i64);
+    rep.see("nontrivial", limit as u64);
+    let replay = vec!["--mode".to_string(), "giant".to_string(), "--giant-limit".to_string(), limit.to_string()];
+    let add = |sig: &str, n: usize, d: Json| {
+        findings.add(sig, Finding { limit, n, detail: d.set("limit", limit).set("n", n), replay: replay.clone() });
+    };
+    // reference: a bit set of composites (Eratosthenes from p * p)
+    let mut comp = vec![0u64; limit / 64 + 1];
+    let mut p = 2usize;
+    while p * p <= limit {
+        if comp[p >> 6] >> (p & 63) & 1 == 0 {
+            let mut m = p * p;
+            while m <= limit {
+                comp[m >> 6] |= 1u64 << (m & 63);
+                m += p;
+            }
+        }
+        p += 1;
+    }
+    let is_p = |n: usize| n >= 2 && comp[n >> 6] >> (n & 63) & 1 == 0;
+    // harness self-check of the bit set against trial division
+    let mut rng = Rng::new(mix(&[seed, 0x5E1F, limit as u64]));
+    for _ in 0..2000 {
+        let n = 2 + rng.below(limit as u64 - 1) as usize;
+        if is_p(n) != td_is_prime(n as u32) {
+            rep.inconclusive(format!("harness: the reference bit set disagrees with trial division at {}", n));
+            return;
+        }
+    }
+    let sieve = match catch(|| lib!(Sieve::new(limit))) {
+        Ok(s) => s,
+        Err(p) => {
+            if p.in_lib {
+                add("panic:new", limit, Json::obj().set("what", "Sieve::new(N) panicked").set("panic", p.msg.as_str()).set("at", format!("{}:{}", p.file, p.line)));
+            } else {
+                rep.inconclusive(format!("harness panic at {}:{}: {}", p.file, p.line, p.msg));
+            }
+            return;
+        }
+    };
+    // every n: is_prime, and min_prime(n) is a prime dividing n (n itself exactly when n is prime)
+    let r = catch(|| {
+        let mut bad_isp = 0u64;
+        let mut bad_mp = 0u64;
+        let mut first: Option<(usize, &'static str, i64)> = None;
+        for n in 2..=limit {
+            let ip = lib!(sieve.is_prime(n as i32));
+            if ip != is_p(n) {
+                bad_isp += 1;
+                first.get_or_insert((n, "is_prime", ip as i64));
+            }
+            let mp = lib!(sieve.min_prime(n as i32)) as i64;
+            let ok = mp >= 2 && (mp as usize) <= n && n % (mp as usize) == 0 && is_p(mp as usize) && ((mp as usize == n) == is_p(n)) && (mp as usize == n || (mp * mp) as usize <= n);
+            if !ok {
+                bad_mp += 1;
+                first.get_or_insert((n, "min_prime", mp));
+            }
+        }
+        (bad_isp, bad_mp, first)
+    });
+    rep.count("giant_entries_checked_against_bit_set", 2 * (limit as u64 - 1));
+    match r {
+        Ok((bi, bm, first)) => {
+            if let Some((n, which, got)) = first {
+                add(
+                    &format!("giant:{}", which),
+                    n,
+                    Json::obj().set("what", "a table entry of a giant sieve is wrong").set("entry", which).set("got", got).set("reference_is_prime", is_p(n)).set("wrong_is_prime_entries", bi).set("wrong_min_prime_entries", bm),
+                );
+            }
+        }
+        Err(p) => {
+            if p.in_lib {
+                add("panic:giant_table", limit, Json::obj().set("what", "is_prime / min_prime panicked for an n within the limit").set("panic", p.msg.as_str()).set("at", format!("{}:{}", p.file, p.line)));
+            } else {
+                rep.inconclusive(format!("harness panic at {}:{}: {}", p.file, p.line, p.msg));
+            }
+        }
+    }
+    // the prime list
+    let primes = lib!(sieve.primes());
+    let mut k = 0usize;
+    let mut bad: Option<(usize, i64)> = None;
+    for n in 2..=limit {
+        if is_p(n) {
+            if k >= primes.len() || primes[k] as i64 != n as i64 {
+                bad = Some((n, primes.get(k).map(|&x| x as i64).unwrap_or(-1)));
+                break;
+            }
+            k += 1;
+        }
+    }
+    rep.count("giant_primes_compared", k as u64);
+    if bad.is_none() && k != primes.len() {
+        bad = Some((limit, primes[k] as i64));
+    }
+    if let Some((n, got)) = bad {
+        add("giant:primes", n, Json::obj().set("what", "primes() of a giant sieve differs from the reference list").set("position", k).set("got", got).set("reference_count", k).set("library_count", primes.len()));
+    }
+    // factorize and exact min_prime on the structured numbers, against trial division
+    let nums = giant_numbers(limit, seed);
+    let mut st = FactorStats::default();
+    let mut checked = 0u64;
+    for &n in &nums {
+        let want = td_factor(n as u64);
+        let r = catch(|| {
+            let mut got: Vec<(i64, i64)> = Vec::new();
+            let mut it = lib!(sieve.factorize(n as i32));
+            while let Some(x) = lib!(it.next()) {
+                got.push((x.0 as i64, x.1 as i64));
+                if got.len() > 64 {
+                    break;
+                }
+            }
+            (got, lib!(sieve.min_prime(n as i32)) as i64)
+        });
+        checked += 1;
+        match r {
+            Ok((got, mp)) => {
+                let w: Vec<(i64, i64)> = want.iter().map(|x| (x.0 as i64, x.1 as i64)).collect();
+                st.max_distinct = st.max_distinct.max(w.len() as i64);
+                st.max_exponent = st.max_exponent.max(w.iter().map(|x| x.1).max().unwrap_or(0));
+                if got != w {
+                    add("giant:factorize", n, Json::obj().set("what", "factorize(n) on a giant sieve differs from trial division").set("got", pairs_json(&got)).set("want", pairs_json(&w)));
+                }
+                if mp != w[0].0 {
+                    add("giant:min_prime", n, Json::obj().set("what", "min_prime(n) on a giant sieve is not the least prime factor").set("got", mp).set("want", w[0].0));
+                }
+            }
+            Err(p) => {
+                if p.in_lib {
+                    add("panic:giant_factorize", n, Json::obj().set("what", "factorize(n) panicked for an n within the limit").set("panic", p.msg.as_str()).set("at", format!("{}:{}", p.file, p.line)));
+                } else {
+                    rep.inconclusive(format!("harness panic at {}:{}: {}", p.file, p.line, p.msg));
+                    return;
+                }
+            }
+        }
+    }
+    rep.count("giant_factorizations_checked_against_trial_division", checked);
+    rep.max("max_exponent_seen", st.max_exponent);
+    rep.max("max_distinct_prime_factors_seen", st.max_distinct);
+}
+
 fn main() {
     let eng = Engine::start("sievemon");
     let a = &eng.args;
     let mode = a.str("mode", "all");
-    if !["all", "every_limit", "adjacent", "large", "blocks"].contains(&mode.as_str()) {
+    if !["all", "every_limit", "adjacent", "large", "blocks", "giant"].contains(&mode.as_str()) {
         panic!("unknown mode {}", mode);
     }
     let thorough = a.thorough();
@@ -941,6 +1203,37 @@ fn main() {
                     .set("oracle", truth.oracle),
             );
         }
+    }
+
+    // ---- giant limits (optimised build only: the table alone is above a gigabyte)
+    if (mode == "all" || mode == "giant") && !cfg!(debug_assertions) {
+        let giants: Vec<usize> = match a.opt("giant-limit") {
+            Some(l) => vec![l.parse().expect("--giant-limit")],
+            None => {
+                if thorough {
+                    vec![223_092_870 + 641, (1 << 28) + 57]
+                } else {
+                    vec![223_092_870 + 641]
+                }
+            }
+        };
+        let q = WorkQueue::new(giants.len() as u64);
+        let giants_ref = &giants;
+        let findings_ref = &findings;
+        let rep = common::run_sharded(threads.min(giants.len()), |_shard, rep| {
+            while let Some(idx) = q.take() {
+                check_giant(giants_ref[idx as usize], seed, findings_ref, rep);
+            }
+        });
+        report.merge(rep);
+        subruns.push(
+            Json::obj()
+                .set("name", "giant")
+                .set("exhaustive", false)
+                .set("limits", Json::from(giants.clone()))
+                .set("entries", "is_prime and the whole prime list against a bit sieve, min_prime(n) a prime divisor of n (and n itself exactly for primes) for every n; factorize and exact min_prime against trial division on prime powers, square-free products of the first 13 primes, smooth numbers, semiprimes near the square root, both table ends, neighbourhoods of powers of two and 40000 random n")
+                .set("oracle", "bit sieve of Eratosthenes + trial division"),
+        );
     }
 
     // the every_limit sub-run enumerates its whole scope; the other sub-runs are selected limits
